@@ -217,6 +217,12 @@ pub fn pick_id_scheme(rng: &mut Rng) -> (i32, i32) {
     ])
 }
 
+/// Isolated mode: every scenario is judged in a process of its own (see driver::judge). Used when
+/// violations found with many simulations per process do not reproduce in a fresh process, i.e.
+/// when the code under test keeps process-global state (a `static`) that simulations running in
+/// the same process share.
+pub static ISOLATED: std::sync::atomic::AtomicBool = std::sync::atomic::AtomicBool::new(false);
+
 /// Progress counter of the current worker thread: the simulator bumps it on every scheduler step, so
 /// the watchdog can tell a slow but progressing run (heavily loaded machine, long pathological
 /// session) from a single poll that never returns.
